@@ -72,7 +72,7 @@ def build(repo, vc_files=None, canary=False):
     anchor = '#![allow(clippy::get_first)]'
     if anchor not in s:
         raise Lost('crate attribute anchor')
-    s = s.replace(anchor, anchor + '\n#![feature(allocator_api)]\n#![allow(unused_imports, dead_code, unused_variables, unused_mut, unused_braces, unused_parens, non_snake_case)]\nuse vstd::prelude::*;\npub use crate::vs::*;\n', 1)
+    s = s.replace(anchor, anchor + '\n#![feature(allocator_api)]\n#![feature(pattern)]\n#![allow(unused_imports, dead_code, unused_variables, unused_mut, unused_braces, unused_parens, non_snake_case)]\nuse vstd::prelude::*;\npub use crate::vs::*;\n', 1)
     s = s + '\n' + root
     info['counts'] = counts
     return s, info
